@@ -141,6 +141,9 @@ def shards(tier: str) -> List[Dict[str, Any]]:
     for i in range(2 if tier == 'quick' else 8):
         out.append({'name': 'rawbytes-%02d' % i, 'kind': 'raw', 'examples': 3000 if tier == 'quick' else 40000})
     out.append({'name': 'handshake', 'kind': 'key', 'examples': 2000 if tier == 'quick' else 50000})
+    if tier != 'quick':
+        for t_ in ('raw', 'sampled'):
+            out.append({'name': 'atheris-' + t_, 'kind': 'atheris', 'what': t_, 'target': t_, 'runs': 300000, 'examples': 0, 'pair_limit': 0})
     return out
 
 
@@ -178,6 +181,11 @@ def _raw_strategy() -> Any:
 
 
 def run_shard(spec: Dict[str, Any], seed: int, acc: Any) -> None:
+    if spec.get('kind') == 'atheris':
+        import sys
+        from vf.fuzz import run as fuzz_run
+        fuzz_run.campaign(sys.modules[__name__], spec['target'], acc, runs=spec['runs'], seed=seed)
+        return
     ws_ref.selftest()
     kind = spec['kind']
     if kind == 'grid':
@@ -215,3 +223,8 @@ def run_shard(spec: Dict[str, Any], seed: int, acc: Any) -> None:
         hyp.drive(st.fixed_dictionaries({'wskey': keys}), chk3, acc, max_examples=spec['examples'], seed=seed)
         return
     raise ValueError(kind)
+
+
+def fuzz_targets() -> Dict[str, Any]:
+    """Coverage-guided campaigns of the thorough tier (atheris drives these strategies through fuzz_one_input)."""
+    return {'raw': (_raw_strategy(), check_raw), 'sampled': (_sampled_strategy(1 << 17), check_case)}
